@@ -873,3 +873,39 @@ package proxy
 //@   ensures @closed: !open(targetStreamServerData)
 // the listener only listens: it never trips the latch itself (values it has queued would be dropped by the relay loop)
 //@   assigns open(targetStreamServerData)
+
+// ---------------------------------------------------------------------------------------------
+// C08: intra-proxy sender incarnations. Registration leaves the caller's sender registered; the clean-up removes the
+// entry only while it is still the caller's (defect D14, fixed: it was unconditional).
+// ---------------------------------------------------------------------------------------------
+//@ guards intraProxyManager.streamsMu: *peers
+//@ contract (*intraProxyManager).UnregisterSender
+//@   props C08
+//@   deletepre senders: @only_own_sender: !$present || $map[$key] == sender
+//@ contract (*intraProxyManager).RegisterSender
+//@   props C08
+//@   requires m.peers != nil && m.loggers != nil
+//@   ensures @newest_registered: targetShard.ClusterID != sourceShard.ClusterID ==> peerNodeName in m.peers && m.peers[peerNodeName] != nil
+//@ extern (ShardManager).GetIntraProxyManager@(*intraProxyStreamSender).Run(sm)
+//@   trusted intra-proxy streams exist only in routing mode with memberlist configured, where NewShardManager creates the manager (newIntraProxyManager allocates the peer table)
+//@   ensures result != nil && result.peers != nil && result.loggers != nil
+//@   assigns nothing
+//@ extern (*intraProxyManager).RegisterSender@(*intraProxyStreamSender).Run(m, peerNodeName, targetShard, sourceShard, sender)
+//@   trusted frame: RegisterSender writes only the manager's peer table (its functional contract is verified separately)
+//@   requires m.peers != nil && m.loggers != nil
+//@   assigns contents(m.peers)
+//@ extern quiet (ShardManager).GetActiveReceiver
+//@ extern quiet (ActiveReceiver).GetLastWatermark
+//@ extern quiet BuildIntraProxySenderStreamID
+//@ extern (adminservice.AdminService_StreamWorkflowReplicationMessagesServer).Send@(*intraProxyStreamSender).Run(stream, m)
+//@   trusted gRPC stream send
+//@   assigns nothing
+//@ extern (*intraProxyStreamSender).recvAck@(*intraProxyStreamSender).Run(s2, sc)
+//@   assigns *
+//@ extern (*intraProxyStreamSender).sendReplicationMessages@(*intraProxyStreamSender).Run(s2, resp)
+//@   assigns nothing
+//@ contract (*intraProxyStreamSender).Run
+//@   props C08
+//@   requires s.shardManager != nil
+//@   callpre UnregisterSender: @own_sender: $sender == s && $peerNodeName == old(s.peerNodeName) && $targetShard == old(s.targetShardID) && $sourceShard == old(s.sourceShardID)
+//@   callpre RegisterSender: @self: $sender == s
